@@ -32,7 +32,8 @@ CHECKS = [
           "-32601 with no invocation; namespace-including dot formatters never let a request for fmt(ns,m) reach a method of another "
           "namespace (injectivity on dot-free method names, all strings); a handler runs only if arity and every positional param "
           "decode fit. Tie: regenerated facts (lookup order, gates before doCall, formatter shape) + exhaustive differential over the "
-          "property's small universe through the real ServeHTTP and a real client per configuration.",
+          "property's small universe through the real ServeHTTP and a real client per configuration."
+          " Also: a method with several positional params and a mismatch at every position; alias chains.",
   "design_ref": "DESIGN.md §6 C12",
   "note": TB + " Method names are assumed to start with an ASCII byte (lower-first slices one byte).",
   "technique": "Lean 4 theorems (list/lookup induction, injectivity of the formatter) + regenerated facts + exhaustive differential correspondence"},
@@ -41,7 +42,8 @@ CHECKS = [
           "method is invoked iff the required permission is in the effective set (attached, even if empty, else defaults), otherwise "
           "permission error and no invocation; ServeHTTP passes exactly verify(token) for 'Bearer t' from header or token query, nothing "
           "for token-less requests, 401 for wrong prefix or rejected token, header wins. Tie: exhaustive differential over the "
-          "3-permission universe and header/query forms against the real auth package.",
+          "3-permission universe and header/query forms against the real auth package."
+          " Also: permissions outside validPerms and histories in which the verifier's answer for a token changes between requests to one handler value.",
   "design_ref": "DESIGN.md §6 C19",
   "note": TB,
   "technique": "Lean 4 theorems (decision logic stated outright) + exhaustive differential correspondence"},
@@ -52,7 +54,8 @@ CHECKS = [
           "start a handler nor alter registered calls; other connections' state is untouched; bodies are refused iff size > limit, with "
           "an error and no handler run. Tie: regenerated statement skeletons of cancelCtx/handleChanMessage/handleChanClose/frameExecutor/"
           "handleResponse + the property's frame grid and random sequences sent to a real server and (from a fake server) a real client "
-          "running in child processes, compared with the model's predicted effects; sizes L-1..L+2 for 11 limits.",
+          "running in child processes, compared with the model's predicted effects; sizes L-1..L+2 for 11 limits."
+          " Also: the size boundary delivered with a declared length, chunked and through HandleRequest; interpreted facts for the handleFrame switch and normalizeID.",
   "design_ref": "DESIGN.md §6 C10",
   "note": TB + " Byte-level mutations are sampled, not proved; 'wedge' is observed as the same and other connections still answering.",
   "technique": "Lean 4 theorems (total executor with crash outcomes, induction over frame sequences) + regenerated skeleton facts + subprocess differential correspondence"},
@@ -79,7 +82,8 @@ CHECKS = [
           "(code 1 and the handler's message for plain unregistered types); a type registered under the same code on both sides "
           "(codec types: their own code) arrives as exactly that registered type with equal content when decode inverts encode; a failed "
           "conversion degrades to the generic error, never nil, and val is total. Tie: regenerated skeletons of createError/val/"
-          "processResponse/processError + differential run with a family of real error types, random tables per side, all transports.",
+          "processResponse/processError + differential run with a family of real error types, random tables per side, all transports."
+          " Also: wrapping errors (Unwrap chains), one type under two codes, and the monitor clause 'registered under the same code on both sides gives that type'.",
   "design_ref": "DESIGN.md §6 C11",
   "note": TB,
   "technique": "Lean 4 theorems (case analysis over capabilities and tables, parametric in the application) + regenerated skeleton facts + differential correspondence"},
@@ -90,7 +94,8 @@ CHECKS = [
           "call's response is an error. Tie: regenerated facts (doCall defers recover before the only reflective call; handlerFunc used "
           "only through doCall; no other reflect Call in the package) + scenarios against a server in a child process: 6 panic payloads "
           "x {unary, notification, channel-returning} x {ws, http} x {alone, with concurrent callers and a stream}, observing the caller's "
-          "error, sibling results, process survival and subsequent calls.",
+          "error, sibling results, process survival and subsequent calls."
+          " Also: payloads that are unhashable, unmarshalable, nil or net/http's abort sentinel, and handlers that panic after their caller cancelled.",
   "design_ref": "DESIGN.md §6 C13",
   "note": TB + " Reverse-call panics (client-side handlers) are exercised by the C16 scenarios, not here.",
   "technique": "Lean 4 theorems (frame lemma on the executor state) + regenerated facts + subprocess scenario correspondence"},
@@ -101,7 +106,8 @@ CHECKS = [
           "type, in order, nothing else, and is not reached iff some round trip fails; raw params arrive verbatim; the caller's value is the round "
           "trip of the handler's value with a nil error, or the zero value with a non-nil error when the handler failed. Tie: regenerated skeletons "
           "of handleRpcCall/handle/register/makeRpcFunc/processFuncOut/param + differential run over 25 real signatures, the property's value "
-          "classes, three transports and five formatters, with the property's oracle (json round trip, DeepEqual) evaluated on what the real handler received.",
+          "classes, three transports and five formatters, with the property's oracle (json round trip, DeepEqual) evaluated on what the real handler received."
+          " Also: a concurrent phase (12/24 goroutines per transport calling through one client with arguments only they use) and result types that merely have an Error method.",
   "design_ref": "DESIGN.md §6 C01",
   "note": TB + " encoding/json and reflect are parameters/trusted; the model executes on argument indices, value fidelity is checked by the harness oracle.",
   "technique": "Lean 4 theorems (structural induction over argument lists, parametric codec) + regenerated skeleton facts + differential correspondence"},
@@ -112,7 +118,8 @@ CHECKS = [
           "the upload request is released only by an end-of-file report or Close; for every interleaving of upload and decoder arrivals a "
           "decoder only ever receives a body uploaded under its own uuid. Tie: regenerated skeletons of waitReadCloser.Read/Close, "
           "ReaderParamDecoder/Encoder + scenarios with the real encoder/decoder pair (lengths around buffer sizes up to MiBs, 7 read "
-          "patterns, both arrival orders, ws/http, 1..8 concurrent calls) whose traced reads are replayed through the model.",
+          "patterns, both arrival orders, ws/http, 1..8 concurrent calls) whose traced reads are replayed through the model."
+          " Also: reader sources that are files or section readers positioned after a consumed header, and pipes.",
   "design_ref": "DESIGN.md §6 C20",
   "note": TB + " The table's arrival interleavings are proved, not observed (no hook in httpio); scenarios force both orders.",
   "technique": "Lean 4 theorems (induction over read/close sequences and arrival events) + regenerated skeleton facts + trace replay of real reads through the model"},
@@ -125,7 +132,8 @@ CHECKS = [
           "argument) + rounds of a mixed workload (sizes 1 B..300 kB, notifications, cancels, streams, reverse calls, pings on both ends, "
           "reconnect) under seed-driven delays: each connection's w.begin/w.end hook trace is replayed through the model and every frame the "
           "proxy reassembles must be one well-formed JSON-RPC frame; plus a race-detector run of the same scenarios and of the "
-          "ping-pending-at-loss schedule (support for the 'no unsynchronised access' clause).",
+          "ping-pending-at-loss schedule (support for the 'no unsynchronised access' clause)."
+          " Also: race-detector schedules PongCut and SubCut; skeletons of sendRequest, nextWriter, lazyWriter and setupPings.",
   "design_ref": "DESIGN.md §6 C14",
   "note": TB + " PARTIAL for the second clause: unsynchronised reads are covered by the regenerated use table and the race detector (dynamic), not by a memory-model proof.",
   "technique": "Lean 4 theorems (wire invariant by induction over lock events) + regenerated facts + hook-trace inclusion + wire monitor + race-detector support"},
@@ -138,7 +146,8 @@ CHECKS = [
           "buffer goroutine has a move that does not depend on the consumer (or the value is discarded on cancel). Tie: regenerated skeletons "
           "of handleOutChans/makeOutChan/closeChans/handleChanMessage/handleChanClose + scenarios (1..4 subscriptions, lengths around every "
           "buffer size, slow and stalled consumers next to unary calls, delays at every hook) whose per-subscription hook traces are replayed "
-          "through the model and compared with what the consumers received; wire order checked on proxy frames.",
+          "through the model and compared with what the consumers received; wire order checked on proxy frames."
+          " Also: Jrpc.Forwarder models the two parallel slices of handleOutChans (alignment invariant; every value and close carries the id announced for its handler channel) with the forwarder's hook events replayed; streams of non-scalar elements compared after the stream ended.",
   "design_ref": "DESIGN.md §6 C07",
   "note": TB + " PARTIAL: liveness ('arrive', 'blocks neither') is proved in safety form and observed with time-outs.",
   "technique": "Lean 4 theorems (FIFO-with-a-cut invariant by induction over events, refinement to a queue) + regenerated skeleton facts + hook-trace inclusion"},
@@ -149,7 +158,8 @@ CHECKS = [
           "reachable, whichever causes race; after each cause the close is enabled once the consumer has drained (immediately on cancel) and "
           "while values are buffered the buffer goroutine has a move. Tie: as C07 + scenarios over cause x instant x reconnect x fault kind "
           "(including faults armed at 5 byte positions of the channel-id response, cancel racing loss, loss then close), every handed-out "
-          "channel must close and stay a prefix.",
+          "channel must close and stay a prefix."
+          " Also: Jrpc.Forwarder (as C07) and Jrpc.Sweep (order of the sweeps on the exit and reconnect paths); a stale subscription context cancelled after a reconnect must not touch the subscription that reuses its channel id.",
   "design_ref": "DESIGN.md §6 C08",
   "note": TB + " PARTIAL: 'eventually closed' = enabledness + fairness; observed with time-outs. F12 (sink registered after the sweep) is decided by the C03 scenarios: the subscribing call then fails and no channel is handed out.",
   "technique": "Lean 4 theorems (prefix invariant, close-once, crash-freedom by induction over events) + regenerated skeleton facts + hook-trace inclusion"},
@@ -159,7 +169,8 @@ CHECKS = [
           "notification ack, or a response frame carrying exactly its own id; a caller receives at most once and the channel never holds more "
           "than one message; a response whose id is registered is handed to exactly the attempt registered under it, unknown ids are dropped "
           "without touching any attempt; one-shot transports accept a response only if its normalised id equals the request's. "
-          + CORRTIE + " Scenarios: every completion permutation for N<=3 (4, 5 sampled), random orders up to 25 callers, HTTP server answering with foreign ids.",
+          + CORRTIE + " Scenarios: every completion permutation for N<=3 (4, 5 sampled), random orders up to 25 callers, HTTP server answering with foreign ids."
+          " Also: concurrent calls alternate between two generated functions (ids are per client); interpreted facts for normalizeID and the id counter.",
   "design_ref": "DESIGN.md §6 C02",
   "note": TB + " Stated bound: ids are distinct below 2^53 calls per client.",
   "technique": "Lean 4 theorems (invariants by induction over events, grind-assisted) + regenerated skeleton facts + hook-trace inclusion"},
@@ -170,7 +181,8 @@ CHECKS = [
           "is registered only after a good check with no redial in progress; the sweep leaves every swept attempt with an answer and its "
           "sends can never block; entries belong to the current epoch; no foreign results under faults. " + CORRTIE +
           " Scenarios: fault kind x 5 byte positions x direction x frame x call timing (before noticed / in the window / after recovery), "
-          "double faults, and two gated schedules (sweep versus executor; a late delete versus a retried call).",
+          "double faults, and two gated schedules (sweep versus executor; a late delete versus a retried call)."
+          " Also: calls issued after the connection goroutine ended (closer, loss on a no-reconnect client) must fail, not block.",
   "design_ref": "DESIGN.md §6 C03",
   "note": TB + " PARTIAL: 'every call returns' = ownership + enabledness + scheduler fairness; observed with the clock-free oracle (a later probe round-tripped).",
   "technique": "Lean 4 theorems (ownership invariant by induction over events) + regenerated skeleton facts + hook-trace inclusion + gated schedules"},
@@ -178,7 +190,8 @@ CHECKS = [
   "text": "Theorems: under every event list at most one request frame is written per attempt and its handler runs at most once; whenever "
           "the executor holds a genuine response for an attempt, that attempt was executed exactly once; a notification is never registered, "
           "never receives a response frame; no step other than the main loop's handling of a fresh request writes a request frame "
-          "(reconnect and exit never re-send). " + CORRTIE + " Scenarios: the C03 grid with per-token execution counters and per-token frame counts at the proxy.",
+          "(reconnect and exit never re-send). " + CORRTIE + " Scenarios: the C03 grid with per-token execution counters and per-token frame counts at the proxy."
+          " Also: an untagged subscription whose response is lost must not be re-sent; HTTP calls whose connection dies after execution are executed once; an untagged declaration next to a retry-tagged one of the same method is not retried; HTTP notifications execute exactly once.",
   "design_ref": "DESIGN.md §6 C04",
   "note": TB + " A retry-tagged call is a sequence of attempts (contrast case); the regenerated retry conjuncts pin when a new attempt starts.",
   "technique": "Lean 4 theorems (counting invariants) + regenerated facts + hook-trace inclusion + wire counts"},
@@ -187,7 +200,8 @@ CHECKS = [
           "clearing is enabled once every entry was visited); once exiting is closed nothing is registered or can be registered or taken, every "
           "taken attempt has an answer or is held by the executor whose send is enabled, every untaken attempt can return the exiting error; "
           "no swap without a running redial. " + CORRTIE + " Scenarios: the closer fired at sampled occurrences of 25 yield-point sites of a mixed workload, "
-          "the sweep-versus-executor schedule with the closer as observer, closers of one-shot clients.",
+          "the sweep-versus-executor schedule with the closer as observer, closers of one-shot clients."
+          " Also: the closer fired while the redial goroutine is about to sleep, contexts cancelled at the moment of the close, a subscriber twelve thousand values behind at the close.",
   "design_ref": "DESIGN.md §6 C18",
   "note": TB + " PARTIAL: completion = safety form + fairness; observed with time-outs.",
   "technique": "Lean 4 theorems (exit-path enabledness, post-exit invariant) + regenerated skeleton facts + hook-trace inclusion + gated closes"},
@@ -199,7 +213,8 @@ CHECKS = [
           "nothing else; hence handlers whose id never appeared in a cancel frame stay live; a call that keeps its context (subscription) stays "
           "registered after its handler returned. Tie: regenerated skeletons of handleCall/cancelCtx/handleCtxAsync/doRequest + scenarios "
           "(subsets cancelled at four instants, a second connection, HTTP abort) whose server-connection hook traces are replayed through the "
-          "model and compared with the contexts captured inside the real handlers.",
+          "model and compared with the contexts captured inside the real handlers."
+          " Also: subscriptions cancelled while their handler is still setting up, ids of every JSON type from a foreign peer, subscriptions ended by the server next to open ones.",
   "design_ref": "DESIGN.md §6 C06",
   "note": TB + " HTTP cancellation is net/http's; honest-peer hypothesis for 'only if the caller cancelled'.",
   "technique": "Lean 4 theorems (frame lemma + cause invariant by induction over events) + regenerated skeleton facts + hook-trace inclusion"},
@@ -211,7 +226,8 @@ CHECKS = [
           "message writer releases its handler): every maximal run ends with no library goroutine left. Tie: regenerated skeletons "
           "(handleCall, lazyWriter.Write, nextWriter, nextMessage, readFrame, setupPings) + scenarios over end cause x reaction time with five "
           "kinds of handler in progress and the gated reader-hand-off schedule: captured contexts must be cancelled, the goroutine profile "
-          "filtered by the connection's pprof labels must drain, and the server connection's trace is replayed through Jrpc.Cancel.",
+          "filtered by the connection's pprof labels must drain, and the server connection's trace is replayed through Jrpc.Cancel."
+          " Also: raw-peer scenarios (a writer stalled on a peer that does not read, then FIN or server-side cancel; a partial frame when the server cancels; a reverse call whose write fails).",
   "design_ref": "DESIGN.md §6 C15",
   "note": TB + " The goroutine model is tied by skeleton facts and profile observation, not by trace replay.",
   "technique": "Lean 4 theorems (context derivation, ranking function + progress over the goroutine model) + regenerated skeleton facts + goroutine-profile observation + hook-trace inclusion"},
@@ -225,7 +241,8 @@ CHECKS = [
           "regenerated skeletons (WithReverseClient, ExtractReverseClient, handleWS, ServeHTTP, websocketClient + the Corr set) + scenarios: "
           "1,2,3,5 clients with identity-returning reverse handlers, sequential / parallel / nested / aliased / failing / missing reverse calls; "
           "loss (FIN, RST, close) before, during, inside the reverse request frame and inside the reverse response frame with the handler's or a "
-          "background context; absence over HTTP and without the option; both endpoints of every connection replayed through Jrpc.Corr.",
+          "background context; absence over HTTP and without the option; both endpoints of every connection replayed through Jrpc.Corr."
+          " Also: reverse notifications while the client goes away; reverse calls made by the handler of a notification.",
   "design_ref": "DESIGN.md §6 C16",
   "note": TB,
   "technique": "Lean 4 theorems (frame/projection lemma over a product of LTSs, corollaries of the Corr invariants) + regenerated skeleton facts + hook-trace inclusion per endpoint + scenario monitors"},
@@ -240,7 +257,8 @@ CHECKS = [
           "{default 5 s, off, equal} with a call lasting 3 timeouts and idle gaps (exactly one connection may be accepted) and blackhole runs "
           "(idle / during a call / under local traffic) whose pending call must fail with the typed connection error and whose redial must "
           "start within 4 timeouts; the client connection's timestamped hook trace (activity, renewals, re-arms, read failures, timer firings) "
-          "is replayed through the model's acceptor: no failure before its armed deadline, no renewal without an activity to consume.",
+          "is replayed through the model's acceptor: no failure before its armed deadline, no renewal without an activity to consume."
+          " Also: a peer silent from the first moment of a connection, keepalive after a reconnect, a peer slow to read for two seconds; healthy-link verdicts are conclusive only if a lag probe and the proxy's frame log show a responsive environment.",
   "design_ref": "DESIGN.md §6 C17",
   "note": TB + " PARTIAL: G and E are environment assumptions; wall-clock behaviour is sampled by the scenarios, not proved.",
   "technique": "Lean 4 theorems (two invariants by induction over timed events) + regenerated skeleton facts + timed hook-trace acceptance + scenario monitors"},
